@@ -356,6 +356,9 @@ def rewrite(m, src, util_src, registries, counts):
                       ".try_as_array_then_convert(crate::vstubs::recipient_from_cbor_value__stub)?", blk)
             blk = cnt('R6', "to_cbor_array(self.recipients)?", "crate::vstubs::recipients_to_cbor_array__stub(self.recipients)?", blk)
             src = src[:i] + blk + src[j:]
+    if m == 'common':
+        # R11: Vec<u8> comparison -> pass-through shim (the generic `impl Ord for Vec<T, A>` cannot be given a byte-level spec)
+        src = cnt('R11', 'encoded_self.cmp(&encoded_other)', 'crate::vprelude::bytes_cmp(&encoded_self, &encoded_other)', src)
     if m == 'cwt':
         # R10: BTreeSet<ClaimName> operations -> pass-through shims (vstd's BTreeSet specs need Ord laws on ALL values of the
         # key type; RegisteredLabelWithPrivate only obeys them on well-formed labels, so the set semantics is assumed there)
@@ -653,7 +656,7 @@ def generate(repo=REPO, contracts_dir=None, with_contracts=True):
         path = os.path.join(repo, 'src', m, 'mod.rs')
         src = open(path).read()
         info['inputs']['src/%s/mod.rs' % m] = sha(src)
-        counts = {k: 0 for k in ['R1', 'R2', 'R3', 'R4', 'R5', 'R6', 'R7', 'R8', 'R9', 'R10']}
+        counts = {k: 0 for k in ['R1', 'R2', 'R3', 'R4', 'R5', 'R6', 'R7', 'R8', 'R9', 'R10', 'R11']}
         c = rewrite(m, src, util_src, registries, counts)
         info['rewrites'][m] = counts
         plain[m] = c
@@ -700,7 +703,7 @@ if __name__ == '__main__':
         util_src = open(os.path.join(REPO, 'src/util/mod.rs')).read()
         regs = []
         for m in MODS:
-            counts = {k: 0 for k in ['R1', 'R2', 'R3', 'R4', 'R5', 'R6', 'R7', 'R8', 'R9', 'R10']}
+            counts = {k: 0 for k in ['R1', 'R2', 'R3', 'R4', 'R5', 'R6', 'R7', 'R8', 'R9', 'R10', 'R11']}
             c = rewrite(m, open(os.path.join(REPO, 'src', m, 'mod.rs')).read(), util_src, regs, counts)
             side = os.path.join(VERIF, 'contracts', m + '.rs')
             g, mi = merge(open(side).read(), c, m)
